@@ -11,6 +11,7 @@ EXPLANATION = (
     "(R5) upstream/downstream are called only from the four entry points, and those only from the event handlers, the lifecycle loops "
     "and module_restart (table exception: Spawner::terminate). "
     '(R6, shared with C03.R3) what the handler and the elements emit during an event leaves the event buffer in program order. '
+    '(R7) the element vector of a ProcessingStack only ever grows at its end (append keeps the installed order; no swap/insert/remove). '
     "Decides these necessary conditions only; not per-history exactly-once counts.")
 ASSUMPTIONS = ["events are dispatched sequentially (one Runtime::dispatch_event at a time), so brackets of one module cannot nest"]
 
